@@ -9,7 +9,7 @@ use serde_json::{Value, json};
 
 pub static PROP: Prop = Prop {
     id: "C10",
-    rule: "(a) token-level trivia on the corpus: at every line break that the lexer reports as a NewLine token a seeded choice of {trailing spaces, trailing `# c` comment, blank line, blank line with stray indentation, comment line at the next line's indentation, comment line at column 0}, and at whitespace tokens an inline `#- c -#` comment; 6 variants per text; oracle: canonical AST (all fields, spans dropped) identical to the original's. (b) generated programs (core / functions / errors profiles) printed under pairs of random layout vectors (inline vs block if / arms / function bodies, quote style, parenthesised vs paren-free print, operator line breaks with deeper indentation, comments, blank lines, trailing whitespace); oracle: both layouts produce identical stdout / result / error class, equal to the reference interpreter's, and identical canonical ASTs modulo the cosmetic field set. (c) every line-prefix of generated programs in canonical block layout: when the next line is indented deeper than the last kept line (a header awaiting its block: function, if / else if / else, while / until / for / loop, try / catch / finally, match / switch, block map) compile must fail with is_indentation_error(); prefixes cut after a trailing `=` or binary operator likewise; prefixes that end at a top-level statement boundary must compile. Non-trivial: (a)/(b) the variant differs from the original on >= 2 lines and contains a nested construct; (c) cut at depth >= 1.",
+    rule: "(a) token-level trivia on the corpus: at every line break that the lexer reports as a NewLine token a seeded choice of {trailing spaces, trailing `# c` comment, blank line, blank line with stray indentation, comment line at the next line's indentation, comment line at column 0}, and at whitespace tokens an inline `#- c -#` comment; 6 variants per text; oracle: canonical AST (all fields, spans dropped) identical to the original's. (b) generated programs (core / functions / errors profiles) printed under pairs of random layout vectors (inline vs block if / arms / function bodies, quote style, parenthesised vs paren-free print, operator line breaks with deeper indentation, comments, blank lines, trailing whitespace); oracle: both layouts produce identical stdout / result / error class, equal to the reference interpreter's, and identical canonical ASTs modulo the cosmetic field set. (c) every line-prefix of generated programs in canonical block layout: when the next line is indented deeper than the last kept line (a header awaiting its block: function, if / else if / else, while / until / for / loop, try / catch / finally, match / switch, block map) compile must fail with is_indentation_error(); prefixes cut after a trailing `=` or binary operator likewise; prefixes that end at a top-level statement boundary must compile. (d) calls with and without parentheses: 4 callees (plain, with leading arguments, method) x 5 inline functions as last argument x 10 positions (statement, alone / first / middle / last entry of a list, tuple, map, argument list, nested list): both spellings print the same. Non-trivial: (a)/(b) the variant differs from the original on >= 2 lines and contains a nested construct; (c) cut at depth >= 1.",
     assumptions: &[
         "cuts the statement does not list (try without catch, open brackets, match without arms) are generated but only judged by 'a complete statement never is an indentation error'",
         "Nested (redundant parentheses) and call parentheses are semantic in the AST, so spellings that differ in them are compared by behaviour only",
@@ -330,6 +330,43 @@ fn has_multiline_literal(prog: &[E]) -> bool {
     found
 }
 
+// (d) calls with and without parentheses ------------------------------------------------------
+
+const SPELL_PRELUDE: &str = "xs = (1, 2, 3, 4)\nea = |t, f| t.each(f).to_tuple()\nap = |f| f 10\nap2 = |v, f| f v\nob = {m: |f| f 7}\ng = |items...| items\n";
+/// (callee, arguments before the function argument)
+const SPELL_CALLS: [(&str, &str); 4] = [("ea", "xs, "), ("ap", ""), ("ap2", "3, "), ("ob.m", "")];
+const SPELL_FUNCS: [&str; 5] = ["|x| x > 2", "|x| x", "|x| x + 1", "|x| (x, 1)", "|x| [x]"];
+/// containers with a hole for the call
+const SPELL_CONTAINERS: [&str; 10] = ["@", "[@]", "[@, 99]", "[0, @, 99]", "(@, 99)", "{k: @, other: 5}", "g(@, 7)", "[[@, 1], 2]", "[0, @]", "g(1, @)"];
+
+/// the same program with the call written with parentheses and paren-free
+pub fn spelling_pair(call: usize, func: usize, container: usize) -> (String, String) {
+    let (callee, before) = SPELL_CALLS[call];
+    let f = SPELL_FUNCS[func];
+    let with = format!("{callee}({before}{f})");
+    let without = format!("{callee} {before}{f}");
+    let prog = |c: &str| format!("{SPELL_PRELUDE}r = {}\nprint r\n", SPELL_CONTAINERS[container].replace('@', c));
+    (prog(&with), prog(&without))
+}
+
+fn eval_spelling(call: usize, func: usize, container: usize) -> Eval {
+    let (with, without) = spelling_pair(call, func, container);
+    let mut ev = Eval::pass(true).class("call-spelling");
+    let a = kx::run(&with, &RunOpts::default());
+    let b = kx::run(&without, &RunOpts::default());
+    if !a.outcome.is_ok() {
+        ev.fail = Some(Fail::new("c10:spelling-script", format!("the parenthesised spelling failed: {:?}\n{with}", a.outcome)));
+        return ev;
+    }
+    if a.stdout != b.stdout || a.outcome != b.outcome {
+        ev.fail = Some(Fail::new(
+            "c10:call-spelling",
+            format!("a call written with and without parentheses behaves differently\n--- with parentheses: {:?} {:?}\n--- paren-free: {:?} {:?}\n--- source (paren-free):\n{without}", a.stdout, a.outcome, b.stdout, b.outcome),
+        ));
+    }
+    ev
+}
+
 fn run_shard(ctx: &mut Ctx) {
     use proptest::strategy::{Strategy, ValueTree};
     // (a) corpus trivia
@@ -345,6 +382,24 @@ fn run_shard(ctx: &mut Ctx) {
             let seed = ctx.sub_seed("trivia", idx) ^ v;
             let case = json!({"kind": "trivia", "src": c.text, "seed": seed});
             ctx.run_case(&case, || eval_trivia(&c.text, seed));
+        }
+    }
+    // (d) call spellings: the full product
+    for call in 0..SPELL_CALLS.len() {
+        for func in 0..SPELL_FUNCS.len() {
+            for container in 0..SPELL_CONTAINERS.len() {
+                // inside brackets a comma separates entries, so a paren-free call takes one argument there:
+                // callees with leading arguments are only spelled paren-free in statement position
+                if !SPELL_CALLS[call].1.is_empty() && container != 0 {
+                    continue;
+                }
+                idx += 1;
+                if !ctx.mine(idx) {
+                    continue;
+                }
+                let case = json!({"kind": "spelling", "call": call, "func": func, "container": container, "src": spelling_pair(call, func, container).1});
+                ctx.run_case(&case, || eval_spelling(call, func, container));
+            }
         }
     }
     // (b) layout pairs and (c) prefixes over generated programs
@@ -381,6 +436,7 @@ fn replay(case: &Value) -> Option<Fail> {
             let prog: Vec<E> = serde_json::from_value(case["ast"].clone()).ok()?;
             eval_prefixes(&prog).fail
         }
+        "spelling" => eval_spelling(case["call"].as_u64()? as usize, case["func"].as_u64()? as usize, case["container"].as_u64()? as usize).fail,
         "known-src" => {
             let out = kx::run(case["src"].as_str()?, &RunOpts::default());
             let exp = case["expect_stdout"].as_str()?;
